@@ -333,6 +333,39 @@ fn check_binary_positions(ctx: &Ctx, named: &[PathBuf], dir: &Path, reports: &[R
         let want = multiset(reports.iter().map(|r| {
             (r.id(), sorted(r.primary().iter().filter_map(region).collect::<Vec<_>>()), sorted(r.secondary().iter().filter_map(region).collect::<Vec<_>>()))
         }));
+        // optional offset/length fields of a region must describe the same text as its lines and columns
+        for (uri, sl, sc, el, ec, char_off, char_len, byte_off, byte_len) in &doc.regions {
+            if char_off.is_none() && char_len.is_none() && byte_off.is_none() && byte_len.is_none() {
+                continue;
+            }
+            let path = uri.trim_start_matches("file://");
+            let Ok(text) = std::fs::read_to_string(path) else { continue };
+            let offset_of = |line: u64, col: u64| -> Option<usize> {
+                let mut off = 0usize;
+                for (k, l) in text.split_inclusive('\n').enumerate() {
+                    if k as u64 + 1 == line {
+                        let within: usize = l.chars().take(col.saturating_sub(1) as usize).map(|c| c.len_utf8()).sum();
+                        return Some(off + within);
+                    }
+                    off += l.len();
+                }
+                if line as usize == text.split_inclusive('\n').count() + 1 && col == 1 { Some(text.len()) } else { None }
+            };
+            let (Some(bs), Some(be)) = (offset_of(*sl, *sc), offset_of(*el, *ec)) else { continue };
+            let want_char_off = text[..bs].chars().count() as u64;
+            let want_char_len = text[bs..be.max(bs)].chars().count() as u64;
+            let wrong = char_off.map(|v| v != want_char_off).unwrap_or(false)
+                || char_len.map(|v| v != want_char_len).unwrap_or(false)
+                || byte_off.map(|v| v != bs as u64).unwrap_or(false)
+                || byte_len.map(|v| v != (be.max(bs) - bs) as u64).unwrap_or(false);
+            if wrong {
+                return Err(Bad::new(format!(
+                    "a SARIF region of {path} ({sl}:{sc}-{el}:{ec}) carries charOffset/charLength/byteOffset/byteLength = {char_off:?}/{char_len:?}/{byte_off:?}/{byte_len:?}, but its lines and columns select characters {want_char_off}+{want_char_len} (bytes {bs}+{})",
+                    be.max(bs) - bs
+                ))
+                .sig("C04:sarif-offset-fields"));
+            }
+        }
         let got = multiset(doc.results.iter().map(|r| (r.rule_id.clone(), sorted(r.locations.clone()), sorted(r.related.clone()))));
         if want != got {
             let only_sarif: Vec<_> = got.iter().filter(|(k, n)| want.get(*k).copied().unwrap_or(0) < **n).map(|(k, _)| k.clone()).collect();
